@@ -24,16 +24,19 @@ def run(ctx):
     cases = []
     for parts, s in streams:
         qe = rng.randrange(2)
+        val, mm, bfo = (1, 0, True) if rng.random() < 0.5 else (rng.randrange(2), rng.choice([0, 0, 1, 2, 3]), rng.random() < 0.5)
         for pf in range(8):
             for parsing in (True, False):
-                cases.append({"stream": s, "pf": pf, "qe": qe, "parsing": parsing, "parts": parts})
+                cases.append({"stream": s, "pf": pf, "qe": qe, "parsing": parsing, "parts": parts,
+                              "validate": val, "msgmode": mm, "bf": bfo})
     ctx.exhaustive_parts.append("all 8 masks x parsing in {True,False} on each of %d streams" % len(streams))
     obs = rp.correspond_runs(ctx, cases, "READ")
     by = {}
     for c, o in zip(cases, obs):
         by[(c["stream"], c["pf"], c["parsing"], c["qe"])] = o
     for c, o in zip(cases, obs):
-        inp = {"op": "READ", "stream": c["stream"].hex(), "pf": c["pf"], "qe": c["qe"], "parsing": c["parsing"]}
+        inp = {"op": "READ", "stream": c["stream"].hex(), "pf": c["pf"], "qe": c["qe"], "parsing": c["parsing"],
+               "validate": c["validate"], "msgmode": c["msgmode"], "parsebitfield": c["bf"]}
         ref = by[(c["stream"], 7, c["parsing"], c["qe"])]
         exp = [it for it in rp.items_key(ref["items"]) if protocol(it[0]) & c["pf"]]
         got = rp.items_key(o["items"])
